@@ -26,6 +26,7 @@ func init() {
 	register("C10", "R4", 5, "no stranded frames: every credit increase or enqueue is followed on all paths by an emitEligibleFrames covering the affected buffers", h2Rescan)
 	register("C10", "R5", 3, "continuation context: a CONTINUATION completes the state recorded by the last HEADERS/PUSH_PROMISE (priority, END_STREAM, promise id); the header buffer is reset when a new block starts", c10r5)
 	register("C10", "R6", 4, "connection frames are relayed with arguments taken from the received frame (SETTINGS list and ack, PING ack+payload, GOAWAY last id, code, debug data)", c10r6)
+	register("C10", "R8", 3, "queued frames own their payload: every byte slice stored in a queued DATA frame or header/push-promise chunk list is a fresh allocation filled by copy - never an alias of the framer's read buffer or of the relay's shared HPACK output buffer, both of which are overwritten while the frame may still be queued", c10r8)
 	register("C10", "R7", 2, "preface: connectionPreface equals RFC 7540 section 3.5; fixed-length protocol reads fill their buffer (io.ReadFull), never a bare Read whose count is discarded", c10r7)
 }
 
@@ -232,14 +233,14 @@ func c09r3(r *R) {
 func c09r4(r *R) {
 	// (a) stores to the window fields, by function
 	allowed := map[string]string{
-		"martian/h2.newRelay|connectionWindowSize":                           "65535",
-		"martian/h2.newRelay|initialWindowSize":                              "65535",
-		"(*martian/h2.relay).updateWindow|connectionWindowSize":              "($0.connectionWindowSize + $1.Increment)",
-		"(*martian/h2.relay).updateWindow|windowSize":                        "((*martian/h2.relay).outputBuffer($0, $1.FrameHeader.StreamID).windowSize + $1.Increment)",
-		"(*martian/h2.relay).updateInitialWindowSize|initialWindowSize":      "$1",
-		"(*martian/h2.relay).updateInitialWindowSize|windowSize":             "(next(range($0.outputBuffers))#2.windowSize + ($1 - $0.initialWindowSize))",
-		"(*martian/h2.relay).outputBuffer|windowSize":                        "$0.initialWindowSize",
-		"(*martian/h2.outputBuffer).emitEligibleFrames|windowSize":           "-fcs",
+		"martian/h2.newRelay|connectionWindowSize":                      "65535",
+		"martian/h2.newRelay|initialWindowSize":                         "65535",
+		"(*martian/h2.relay).updateWindow|connectionWindowSize":         "($0.connectionWindowSize + $1.Increment)",
+		"(*martian/h2.relay).updateWindow|windowSize":                   "((*martian/h2.relay).outputBuffer($0, $1.FrameHeader.StreamID).windowSize + $1.Increment)",
+		"(*martian/h2.relay).updateInitialWindowSize|initialWindowSize": "$1",
+		"(*martian/h2.relay).updateInitialWindowSize|windowSize":        "(next(range($0.outputBuffers))#2.windowSize + ($1 - $0.initialWindowSize))",
+		"(*martian/h2.relay).outputBuffer|windowSize":                   "$0.initialWindowSize",
+		"(*martian/h2.outputBuffer).emitEligibleFrames|windowSize":      "-fcs",
 	}
 	for _, fn := range h2Funcs(r) {
 		eachInstr(fn, func(ins ssa.Instruction) {
@@ -342,7 +343,9 @@ func c09r5(r *R) {
 		case 0:
 			r.check(p.holds("("+L+" == 0)"), key, p.pos(), "skipped only for a zero-length frame", "no WINDOW_UPDATE on a path where the frame length is not known to be 0: ["+strings.Join(p.Conds, " ∧ ")+"]")
 		case 1:
-			failed := p.hasCond(func(c string) bool { return strings.HasPrefix(c, "((*golang.org/x/net/http2.Framer).WriteWindowUpdate(") && strings.HasSuffix(c, " != nil)") })
+			failed := p.hasCond(func(c string) bool {
+				return strings.HasPrefix(c, "((*golang.org/x/net/http2.Framer).WriteWindowUpdate(") && strings.HasSuffix(c, " != nil)")
+			})
 			r.check(incs[0] == "0, "+L && failed, key, p.pos(), "connection update with the full frame length; the stream update is skipped only after a write error", "single update "+incs[0])
 		case 2:
 			nFull++
@@ -937,7 +940,9 @@ func c10r5(r *R) {
 			if dec < 0 {
 				why = append(why, "END_HEADERS does not decode the whole buffered block")
 			}
-			failed := p.hasCond(func(c string) bool { return strings.HasPrefix(c, "((*martian/h2.relay).decodeFull(") && strings.HasSuffix(c, "#1 != nil)") })
+			failed := p.hasCond(func(c string) bool {
+				return strings.HasPrefix(c, "((*martian/h2.relay).decodeFull(") && strings.HasSuffix(c, "#1 != nil)")
+			})
 			comp := p.eventIndex(0, "call", prefix("invoke martian/h2.continuationState.complete($0.continuationState, "))
 			if !failed && comp < 0 {
 				why = append(why, "decoded block is not completed through the recorded continuation state")
@@ -1110,4 +1115,55 @@ func shortReadRule(r *R, rule string, pkgs []string) {
 			r.check(nUsed || passthrough, fname(fn)+"#Read", c.Pos(), "byte count is used", "Read's byte count is discarded: a short read leaves the buffer partly filled (use io.ReadFull)")
 		})
 	}
+}
+
+func c10r8(r *R) {
+	fresh := func(fn *ssa.Function, v ssa.Value, at ssa.Instruction) (bool, string) {
+		ms, ok := v.(*ssa.MakeSlice)
+		if !ok {
+			return false, "payload " + describe(v) + " is not a fresh allocation: it aliases a buffer that is reused while the frame can still be queued"
+		}
+		filled := false
+		for _, c := range calls(fn, nameIs("builtin copy")) {
+			if c.Common().Args[0] == ssa.Value(ms) && instrDominates(c.(ssa.Instruction), at) {
+				filled = true
+			}
+		}
+		if !filled {
+			return false, "fresh slice is not filled by copy before it is queued"
+		}
+		return true, ""
+	}
+	sp := r.fn(h2pkg, "splitIntoChunks")
+	n := 0
+	eachInstr(sp, func(ins ssa.Instruction) {
+		c, ok := ins.(*ssa.Call)
+		if !ok || calleeName(c.Common()) != "builtin append" || typeStr(c.Type()) != "[][]byte" {
+			return
+		}
+		n++
+		va := variadicArgs(c.Common().Args[1])
+		if len(va) != 1 {
+			r.undecided("splitIntoChunks#append", c.Pos(), "unexpected append shape")
+			return
+		}
+		ok2, why := fresh(sp, va[0], c)
+		r.check(ok2, fmt.Sprintf("splitIntoChunks#chunk-owned(loop=%v)", reaches(c, c)), c.Pos(), "chunk is a fresh copy", why)
+	})
+	if n < 2 {
+		r.bad("splitIntoChunks#chunks-owned", sp.Pos(), "expected the first chunk and the continuation chunks to be appended")
+	}
+	data := r.method(h2pkg, "relay", "data")
+	eachInstr(data, func(ins ssa.Instruction) {
+		st, ok := ins.(*ssa.Store)
+		if !ok {
+			return
+		}
+		fa, ok := st.Addr.(*ssa.FieldAddr)
+		if !ok || structName(fa.X.Type()) != "martian/h2.queuedDataFrame" || fieldName(fa.X.Type(), fa.Field) != "data" {
+			return
+		}
+		ok2, why := fresh(data, st.Val, st)
+		r.check(ok2, "relay.data#payload-owned", st.Pos(), "DATA payload is a fresh copy of the received bytes", why)
+	})
 }
